@@ -197,7 +197,7 @@ impl BlockchainParser {
             //# C02:log_is_a_prefix_on_error
             r is Err ==> exists|k: int| old(self).cur_height <= k
                 && final(self).callback.log() =~= heights(old(self).cur_height as int, k),
-//@before `self.on_start(self.cur_height)?;`
+//@before `self.on_start`
         let ghost s0 = self.cur_height as int;
         let ghost m = self.chain_storage.chain_index.max_height as int;
         proof { assert(self.callback.log() =~= heights(s0, s0)); }
@@ -224,10 +224,10 @@ impl BlockchainParser {
                 self.callback.started() == Some(old(self).cur_height),
                 self.callback.completed() is None,
                 self.chain_storage.chain_index == old(self).chain_storage.chain_index,
-//@before `let block = match self.chain_storage.get_block(height) {`
+//@before `let block = match`
             assert(height == s0 + iter.index@);
             assert(height <= m);
-//@before `self.on_complete(self.cur_height.saturating_sub(1))`
+//@before `self.on_complete`
         proof {
             if m + 1 < s0 { assert(heights(s0, s0) =~= heights(s0, m + 1)); }
         }
